@@ -21,12 +21,12 @@ def gen_case(rng):
             ops.append({"op": "addEntities", "cls": cls, "ids": ids, "dup": rng.choice(["error", "update"])})
         elif r < 0.7:
             rows = []
-            for _ in range(rng.randint(1, 8)):
+            for _ in range(0 if (have_ts and rng.random() < 0.08) else rng.randint(1, 8)):
                 u = rng.choice(U + [777]); i = rng.choice(I + [77])
                 if (u, i) in seen and rng.random() < 0.9: continue
                 seen.add((u, i))
                 rows.append({"u": u, "i": i, "r": rat(rng.randint(1, 10) / 2), "t": rng.randint(0, 50)})
-            if not rows: continue
+            if not rows and not have_ts: continue          # an addition of no records is an addition (once the class exists)
             ops.append({"op": "addInteractions", "rows": rows, "missing": rng.choice(["insert", "filter", "error", "insert"])})
             have_ts = True
         elif r < 0.8:
@@ -202,6 +202,7 @@ def run(case: dict, lean: Lean) -> Outcome:
     if kinds.count("addEntities") > 2: classes.append("late-added entities")
     if "filterTime" in kinds or "remove" in kinds: classes.append("filter op")
     if "clear" in kinds: classes.append("clear")
+    if any(o["op"] == "addInteractions" and not o["rows"] for o in case["ops"]): classes.append("addition of no records")
     if any(o["op"] == "addInteractions" and o["missing"] == "filter" for o in case["ops"]): classes.append("missing=filter")
     if any(e for e in errs): classes.append("error stream")
     act_u = {r[0] for r in recs}
